@@ -54,7 +54,8 @@ def compute_poc(force, method="deviation_from_baseline", ret_details=False):
             break
     else:
         raise ValueError(f"Undefined POC method '{method}'!")
-    if np.isnan(cp):
+    if np.isnan(cp) or not 0 <= cp < force.size:
+        # (a fitted contact point outside of the data is not a result)
         cp = force.size // 2
     if ret_details:
         return cp, details
